@@ -270,6 +270,43 @@ def synthetic():
     return out
 
 
+def remote_sizes(args, rep, srcs):
+    """the size pairs of the synthetic modules on the other interpreters that run the minifier (their trees differ: parameters are Name nodes
+    with a Param context on 2.7, strings are Str nodes before 3.8 ...): same records, same judge; decisions are not logged there"""
+    import base64
+    from .. import pool
+    from ..common import available_versions
+    versions = available_versions(['2.7', '3.8']) if args.tier == 'quick' else [v for v in available_versions() if v != '3.12']
+    records = []
+    for v in versions:
+        reqs = []
+        for name, b in srcs:
+            for o in SIZE_OPTS:
+                for bname in ('off', 'default'):
+                    base = dict(ALL_OFF, preserve_shebang=True) if bname == 'off' else {}
+                    for flag in (False, True):
+                        reqs.append({'op': 'minify', 'id': '%s|%s|%s|%s|%d' % (name, o, bname, v, flag), 'src_b64': inputs.b64(b), 'as_bytes': False, 'opts': dict(base, **{o: flag})})
+        res = pool.run_requests(v, reqs, timeout=120)
+        for name, b in srcs:
+            for o in SIZE_OPTS:
+                for bname in ('off', 'default'):
+                    a0 = res.get('%s|%s|%s|%s|0' % (name, o, bname, v), {})
+                    a1 = res.get('%s|%s|%s|%s|1' % (name, o, bname, v), {})
+                    if a0.get('outcome') != 'return' or a1.get('outcome') != 'return':
+                        continue            # not a program of that interpreter (or a worker failure): nothing to compare
+                    off, on = base64.b64decode(a0['out_b64']), base64.b64decode(a1['out_b64'])
+                    grows = len(on) > len(off)
+                    off_t, on_t = off.decode('utf-8', 'replace'), on.decode('utf-8', 'replace')
+                    records.append({'id': '%s|%s|%s|%s' % (name, o, bname, v), 'what': 'size', 'option': o, 'len_on': len(on), 'len_off': len(off),
+                                    'slack': indent_slack(on_t) if grows and o in ('rename_locals', 'rename_globals', 'hoist_literals') else 0,
+                                    'adjacent': adjacent_literals(off_t) if grows and o == 'hoist_literals' else 0,
+                                    'debug_spec': bool(o in ('constant_folding', 'hoist_literals', 'rename_locals', 'rename_globals') and grows and re.search(r'\{[^{}]*=(![rsa])?(:[^{}]*)?\}', off_t)),
+                                    'kind': '', 'L': 0, 'C': 0, 'refs': 0, 'old_mentions': 0, 'new_mentions': 0, 'additional': 0, 'decided': False})
+    rep.extra['remote_size_pairs'] = len(records)
+    rep.extra['remote_versions'] = list(versions)
+    return records
+
+
 def run(args, rep):
     rng = random.Random(args.seed)
     for cfg in ('MC_Cost.cfg',):
@@ -283,6 +320,7 @@ def run(args, rep):
     jobs = [{'id': name, 'src': b} for name, b in srcs]
     res = local.pmap(size_job, jobs, chunksize=2)
     records = [r for rs in res for r in rs]
+    records += remote_sizes(args, rep, synthetic())
     rep.evaluations += len(records)
     shas = {name: sha(b)[:12] for name, b in srcs}
     verdicts, judged = tlc.judge('Trace_Size', 'Trace_Size.cfg', records, tag='C17')
@@ -297,14 +335,14 @@ def run(args, rep):
         r = byid[rid]
         name = rid.split('|')[0]
         if r['what'] == 'size':
-            key = 'size|%s|%s|%s|%s' % (name.split('/')[-1], shas[name], r['option'], rid.split('|')[2])
+            key = 'size|%s|%s|%s|%s' % (name.split('/')[-1], shas[name], r['option'], '|'.join(rid.split('|')[2:]))
             if 0 < r['len_on'] - r['len_off'] <= r.get('slack', 0):
                 key = 'D15:' + key       # the growth is within what the indentation of inserted assignments accounts for (known finding)
             elif r.get('debug_spec'):
                 key = 'D43:' + key       # the expression of a self-documenting f-string field rewritten (known finding)
             elif 0 < r['len_on'] - r['len_off'] <= r.get('slack', 0) + r.get('adjacent', 0):
                 key = 'D30:' + key       # ... plus one space per literal that touched a keyword (known finding)
-            what = '%s option=%s base=%s len_on=%d len_off=%d' % (name, r['option'], rid.split('|')[2], r['len_on'], r['len_off'])
+            what = '%s option=%s base=%s len_on=%d len_off=%d' % (name, r['option'], '|'.join(rid.split('|')[2:]), r['len_on'], r['len_off'])
         else:
             key = 'decision|%s' % ','.join('%s=%s' % (k, r[k]) for k in ('kind', 'L', 'C', 'refs', 'old_mentions', 'new_mentions', 'additional', 'decided'))
             what = key
@@ -318,7 +356,7 @@ def run(args, rep):
     rep.rule = ('pinned stdlib modules and the repository sources x 11 size options x 2 bases (all off; defaults minus the option): output byte lengths with the option on and off; '
                 'plus synthetic modules: one literal of 16 kinds repeated 2..20 times, and one literal at 3 / 8 sites of each of %d syntactic kinds (annotated assignment, default, '
                 'keyword, return, subscript, f-string, pattern, ...) at module level / in a function / in a method; small library modules (everything in __all__; imports and '
-                'builtins used 1-3 times; unrelated functions reusing those names as parameters / locals / lambda parameters / class attributes, or not); plus up to 400 logged should_rename decisions per module; non-trivial = (module, option, base) triples whose two outputs differ in length' % len(SITES))
+                'builtins used 1-3 times; unrelated functions reusing those names as parameters / locals / lambda parameters / class attributes, or not); plus up to 400 logged should_rename decisions per module; the synthetic modules also on the other interpreters (quick: 2.7 and 3.8); non-trivial = (module, option, base) triples whose two outputs differ in length' % len(SITES))
     rep.extra.update({'modules': len(jobs), 'decisions_logged': len(dec), 'size_pairs': len(records) - len(dec), 'corpus_skipped': skipped,
                       'checker_cmd': 'tlc Cost.tla (MC_Cost.cfg); tlc Trace_Size.tla over ndjson observations'})
     rep.assumptions += ['"real-world modules" = the pinned corpus; the property is a corpus observation, not a universal claim',
